@@ -395,6 +395,12 @@ def testbench(repo: Repo, R, noret):
         # the package every Sim is exported against: on each path, the co-export of the testbenches of that same sequence
         for pv, c1 in shared.alternatives(ft.node, b2["P"], pc, at=c2):
             b1 = pat.match("module_to_proto([$I.tb for $I in $L])", pv)
+            if b1 is None and ast.unparse(pv) == "module_to_proto([inp.tb])":
+                # (the comprehension over the one-element list `[inp]`, written out by the canonical expression form)
+                for lt, cl in l_alts:
+                    if not shared._contradict(c1, cl) and lt != "[inp]":
+                        here = False
+                continue
             if b1 is None:
                 here = False
                 continue
